@@ -19,10 +19,15 @@ PROP = dict(
              env={"GORACE": "exitcode=0"},
              monitors=["gauge_equals_live_workers (all workers up, every Start/Stop cycle)",
                        "gauge_zero_when_stop_returns (read in the statement after Stop(): decrement happens-before wg.Done)"]),
+        dict(driver="archstat", binary="zstats", race=True, quick=20, thorough=400, shard=40,
+             env={"GORACE": "exitcode=0"},
+             monitors=["status_counts_exact (statuses archive() accepts: count = responses the origin served)",
+                       "status_counts_exact_retried (5xx/408/425/429: count = responses the origin served)",
+                       "urls_crawled_exact (= items that left the archiver)"]),
     ],
     partial="mean.go is modelled AFTER fixes/C17-mean-mutex.diff (count and sum under one mutex): the code as found is kept as "
             "mean_*_orig and refuted by C17_mean_reset_orig_refuted (reset racing add tears count/sum; reproduced on the real "
-            "code by the driver, known finding until the fix is committed). Critical sections (sync.Mutex) are single steps of the "
+            "code by the driver; fixed in /repo by 1aaa3f7). Critical sections (sync.Mutex) are single steps of the "
             "transition system; Go's memory model for sync/atomic (sequentially consistent atomics) is assumed, not modelled. "
             "Prometheus collectors are third-party and only checked (their /metrics values against event counts), not modelled. "
             "The per-second rate value (rate.get) is modelled but nothing is claimed about it: it depends on the clock.",
